@@ -184,6 +184,28 @@ theorem pktDone_mono (pkts : List Bytes) (c c' : Nat) (h : c ≤ c') : pktDone p
       have := ih (c - (pktEnc b).flatten.length) (c' - (pktEnc b).flatten.length) (by omega); omega
     · simp only [h1, if_false]; omega
 
+theorem pktEnc_pos (b : Bytes) : 0 < (pktEnc b).flatten.length := by
+  have hne : ptdpsOf b false ≠ [] := by
+    unfold ptdpsOf
+    split
+    · simp
+    · rename_i h
+      simp only [PTDP_MAX_LEN] at h ⊢
+      obtain ⟨m, hm⟩ : ∃ m, (b.length + 2048 - 1) / 2048 = m + 1 := ⟨(b.length + 2048 - 1) / 2048 - 1, by omega⟩
+      rw [hm]
+      simp [fragmentsFrom]
+  obtain ⟨p, r, hp⟩ := List.exists_cons_of_ne_nil hne
+  simp only [pktEnc, hp, List.map_cons, List.flatten_cons, List.length_append, encB_length]
+  omega
+
+theorem pktDone_zero (pkts : List Bytes) : pktDone pkts 0 = 0 := by
+  cases pkts with
+  | nil => rfl
+  | cons b r =>
+    have := pktEnc_pos b
+    have h : ¬ (pktEnc b).flatten.length ≤ 0 := by omega
+    simp only [pktDone, h, if_false]
+
 /-- what the consumer has after reassembly: per frame, the low-latency packets it holds (flagged), then
     the normal packets whose last byte lies in that frame -/
 def mixPkts (L : Nat) (npkts : List Bytes) : Nat → List (List PTDP.State) → List (Bytes × Bool)
